@@ -1,5 +1,11 @@
 package mcrt
 
+import (
+	"fmt"
+	"os"
+	"runtime"
+)
+
 // Explore enumerates all schedules of body with at most `bound` preemptions (iteratively,
 // 0..bound), calling check after every complete execution. check returns a non-empty string
 // to report a failure. setup must build a fresh instance for every execution.
@@ -46,6 +52,11 @@ func exploreBound(bound int, maxExec int64, run func(s *Sched) (string, string),
 		s := &Sched{Choices: prefix}
 		outcome, fail := run(s)
 		res.Executions++
+		if res.Executions%20000 == 0 && os.Getenv("VERIF_MEMSTAT") != "" {
+			var ms runtime.MemStats
+			runtime.ReadMemStats(&ms)
+			fmt.Fprintf(os.Stderr, "memstat: executions=%d goroutines=%d heap=%dMB\n", res.Executions, runtime.NumGoroutine(), ms.HeapAlloc>>20)
+		}
 		res.Steps += int64(len(s.Steps))
 		if s.Broken != "" {
 			res.Broken = s.Broken
